@@ -309,6 +309,8 @@ func (w *vxC16World) publish() {
 			s.HostID = ""
 		case "allnull":
 			s.Rack, s.DC, s.Tokens, s.HostID = "", "", nil, ""
+		case "noaddr":
+			s.NoAddr = true
 		}
 		specs = append(specs, s)
 	}
@@ -1254,13 +1256,20 @@ func (w *vxC16World) apply(st vxC16Step) (skipped bool, err error) {
 				return true, nil
 			}
 			i := cands[st.I%len(cands)]
-			w.rows[i].Kind = kinds[st.J%3]
-			w.k.Class("invalid:existing-node:" + kinds[st.J%3])
+			kd := kinds[st.J%3]
+			if st.J == 5 {
+				kd = "noaddr" // peer null and rpc_address 0.0.0.0: nothing to connect to
+			}
+			w.rows[i].Kind = kd
+			w.k.Class("invalid:existing-node:" + kd)
 			if w.added {
 				w.changed = true
 			}
 		} else {
 			kd := kinds[st.J%5]
+			if st.J == 5 {
+				kd = "noaddr"
+			}
 			w.rows = append(w.rows, vxC16Row{IP: w.freshIP(), ID: w.freshID(), DC: "dc1", Rack: "r1", Tokens: vxC16Tokens(w.nextID), Kind: kd, Fresh: true})
 			w.k.Class("invalid:new-row:" + kd)
 		}
@@ -2048,7 +2057,7 @@ func vxC16DrawStep(t *rapid.T, salt uint64, pos int) vxC16Step {
 		st.Flag = vxC16Pick(t, "back", 3, salt, pos*16+2) == 0
 	case "invalid":
 		st.I = vxC16Pick(t, "i", 8, salt, pos*16+1)
-		st.J = vxC16Pick(t, "kind", 5, salt, pos*16+2)
+		st.J = vxC16Pick(t, "kind", 6, salt, pos*16+2)
 		st.Flag = rapid.Bool().Draw(t, "existing")
 	case "dup":
 		st.I = vxC16Pick(t, "i", 8, salt, pos*16+1)
